@@ -2144,6 +2144,47 @@ class TestZstdCompression:
             assert values == list(range(10))
         client.close()
 
+    def test_compressed_continuation_turn_honours_the_cap(self) -> None:
+        """A compressed continuation turn breaks at the same batch as an uncompressed one.
+
+        ``max_response_bytes`` is measured on the IPC bytes a turn has written,
+        not on what the codec has flushed so far: the latter lags by the codec's
+        internal buffering, which let a compressed continuation turn keep
+        producing far past the cap.
+        """
+        from vgi_rpc._codec import Encoding, decompress
+
+        def data_batches_per_turn(level: int | None) -> list[int]:
+            client = make_sync_client(
+                RpcServer(RpcFixtureService, RpcFixtureServiceImpl()),
+                token_key=b"test-key",
+                max_response_bytes=1000,
+                compression_level=level,
+            )
+            per_turn: list[int] = []
+            inner = client._client.simulate_post
+
+            def recording(path: str, **kwargs: Any) -> Any:
+                result = inner(path, **kwargs)
+                body = result.content
+                coding = result.headers.get("content-encoding")
+                if coding:
+                    body = decompress(Encoding(coding), body)
+                per_turn.append(sum(1 for b in ipc.open_stream(body) if b.num_rows))
+                return result
+
+            client._client.simulate_post = recording  # type: ignore[method-assign]
+            with http_connect(RpcFixtureService, client=client, compression_level=level) as proxy:
+                batches = list(proxy.generate_multi(count=5000, rows_per_batch=500))
+            client.close()
+            assert [ab.batch.num_rows for ab in batches] == [500] * 10
+            return per_turn
+
+        # Every 500-row batch (8 KB) crosses the 1000-byte cap on its own, so each
+        # turn carries exactly one; the last turn only finishes.
+        assert data_batches_per_turn(None) == [1] * 10 + [0]
+        assert data_batches_per_turn(3) == [1] * 10 + [0]
+
     def test_no_compression(self) -> None:
         """Full round-trip with compression_level=None on both sides."""
         client = make_sync_client(
